@@ -17,6 +17,18 @@ from fractions import Fraction
 import numpy as np
 
 
+
+def _scratch_base():
+    """every scratch file of this run lives below one directory that is removed at exit"""
+    import atexit
+    import shutil
+    base = tempfile.mkdtemp(prefix="nixverif_tmp_")
+    tempfile.tempdir = base
+    atexit.register(shutil.rmtree, base, True)
+
+
+_scratch_base()
+
 def num(x, default=0.0):
     if isinstance(x, dict) and "q" in x:
         return float(Fraction(x["q"]))
